@@ -250,7 +250,8 @@ fn check_file(bytes: &[u8], kv: &Kv, version: u64, container: usize, tmp: &std::
 }
 
 fn header_sweep(ev: &mut Ev) {
-    let versions: [u64; 9] = [0, 1, 2, 3, 4, 5, 255, 1 << 32, u64::MAX];
+    // supported numbers, their neighbours, and numbers that only LOOK supported when truncated to 8, 16 or 32 bits or read with the wrong byte order
+    let versions: [u64; 22] = [0, 1, 2, 3, 4, 5, 255, 256 + 3, 256 + 1, (1 << 16) + 3, (1 << 16) + 2, 1 << 32, (1 << 32) + 1, (1 << 32) + 2, (1 << 32) + 3, (7 << 32) + 3, (1 << 63) + 3, 1 << 63, 3 << 56, 1 << 56, u64::MAX - 1, u64::MAX];
     for &ver in versions.iter() {
         for len in 0..=44usize {
             for fill in 0..3 {
